@@ -406,9 +406,34 @@ func (w *World) chooseN(n int, label string) int {
 	if n <= 1 {
 		return 0
 	}
-	t := w.newInput(label, 8)
+	w.run.schedDependent = true // scheduler / select / map-order choices cannot be forced in a native run
+	if gDebug {
+		desc := ""
+		if w.sched != nil {
+			for _, th := range w.sched.threads {
+				st := "run"
+				if th.done {
+					st = "done"
+				} else if th.blockedOn != nil {
+					st = "blk:" + th.what
+					if th.blockedOn() {
+						st += "(ready)"
+					}
+				}
+				desc += fmt.Sprintf(" %s=%s", th.name, st)
+			}
+			desc += " cur=" + w.sched.cur.name
+		}
+		w.run.dbgLog = append(w.run.dbgLog, fmt.Sprintf("choose %s of %d input#%d:%s", label, n, len(w.run.inputs), desc))
+	}
+	t := w.newInput(fmt.Sprintf("%s_of%d", label, n), 8)
 	w.assume(fromTerm(w.tt.Cmp(OpUlt, t, w.tt.Const(uint64(n), 8))))
-	return int(w.concretize(t, n+1))
+	k := int(w.concretize(t, n+1))
+	if k >= n {
+		r := w.run
+		panic(engineError{fmt.Sprintf("chooseN(%d,%s) = %d: witness[%s]=%d cursor=%d/%d inputs=%d pc=%d", n, label, k, t.Name, r.witness[t.Name], r.cursor, len(r.trail), len(r.inputs), len(r.pc))})
+	}
+	return k
 }
 
 func typeString(t types.Type) string {
